@@ -4,6 +4,7 @@ import (
 	"fmt"
 	"sort"
 	"strings"
+	"time"
 
 	"verif/drv"
 	"verif/ref"
@@ -344,7 +345,7 @@ func sortedKeys(m map[string]int) []string {
 }
 
 func init() {
-	Register(&Check{ID: "C05", Level: "fault_enumeration", Engine: "drv", QuickRuns: 1500, ThoroughS: 600, Components: stdComponents,
+	Register(&Check{ID: "C05", Level: "fault_enumeration", Engine: "drv", QuickRuns: 1500, ThoroughS: 600, Components: stdComponents, RunTimeout: 240 * time.Second,
 		Assumptions: []string{
 			"storage model of the statement: each underlying batch write is atomic and writes are totally ordered (no torn batches, no reordering, no lost un-synced writes)",
 			"cut positions are enumerated exhaustively per explored history; histories, configurations and the reopening configuration are sampled",
